@@ -2,6 +2,9 @@
 // SPDX-License-Identifier: Apache-2.0
 
 use std::mem::{size_of, MaybeUninit};
+#[cfg(clock_bound_verif)]
+use crate::verif::atomic;
+#[cfg(not(clock_bound_verif))]
 use std::sync::atomic;
 
 use crate::{syserror, ShmError};
